@@ -1130,3 +1130,217 @@ Lemma world_grown w o a b : wop_target o = Some a -> wwf w -> (a < length (snd w
   /\ obj_at (fst (wstep w o)) b = obj_at w b /\ obj_read (fst (wstep w o)) b = obj_read w b.
 Proof. intros T. rewrite (wstep_target w o a T). apply apply_obj_grown. Qed.
 
+
+(* ======================= round 5: READ ROUTES — every route reads the field's values, not the packed bytes ======================= *)
+Lemma nth_ext_Z (l l' : list Z) : length l = length l' -> (forall j, (j < length l)%nat -> nth j l 0 = nth j l' 0) -> l = l'.
+Proof. intros Hl H. apply (nth_ext l l' 0 0 Hl). exact H. Qed.
+
+Lemma nth_map_Z (f : Z -> Z) l j : (j < length l)%nat -> nth j (map f l) 0 = f (nth j l 0).
+Proof. intros H. rewrite (nth_indep _ 0 (f 0)) by now rewrite map_length. apply map_nth. Qed.
+
+Lemma nth_map_seq (g : nat -> Z) n j : (j < n)%nat -> nth j (map g (seq 0 n)) 0 = g j.
+Proof.
+  intros H. rewrite (nth_indep _ 0 (g 0%nat)) by now rewrite map_length, seq_length.
+  rewrite map_nth, seq_nth by exact H. reflexivity.
+Qed.
+
+Lemma max_255_true :
+  forallb (fun e : Z * string * string * Z => let '(_, _, _, m) := e in sf_max m <? 256) all_sub_fields = true.
+Proof. vm_compute. reflexivity. Qed.
+
+Lemma sf_get_byte fmt name c m b : In (fmt, name, c, m) all_sub_fields -> 0 <= b < 256 -> 0 <= sf_get m b < 256.
+Proof.
+  intros Hin Hb. pose proof (sf_get_le _ _ _ _ _ Hin Hb) as L.
+  pose proof max_255_true as S. rewrite forallb_forall in S. specialize (S _ Hin). cbn beta iota in S. lia.
+Qed.
+
+Lemma last_val_cons p sel j d : last_val (p :: sel) j d = last_val sel j (if Nat.eqb (fst p) j then snd p else d).
+Proof. reflexivity. Qed.
+
+Lemma last_val_untouched sel j : forall d, (forall p, In p sel -> fst p <> j) -> last_val sel j d = d.
+Proof.
+  induction sel as [|p sel IH]; intros d H; [reflexivity|]. rewrite last_val_cons.
+  assert (Nat.eqb (fst p) j = false) as -> by (apply Nat.eqb_neq, H; now left).
+  apply IH. intros q Hq. apply H. now right.
+Qed.
+
+Lemma last_val_last sel1 p sel2 d : (forall q, In q sel2 -> fst q <> fst p) -> last_val (sel1 ++ p :: sel2) (fst p) d = snd p.
+Proof.
+  intros H. unfold last_val. rewrite fold_left_app. cbn [fold_left]. rewrite Nat.eqb_refl.
+  now apply (last_val_untouched sel2 (fst p) (snd p)).
+Qed.
+
+(* the field's value at EVERY point after an index expression (repetitions allowed): the last value assigned to the
+   point, the old value where the expression does not address it *)
+Lemma fold_get_last fmt name c m sel : In (fmt, name, c, m) all_sub_fields ->
+  forall bs j, (forall p, In p sel -> 0 <= snd p <= sf_max m) -> byte_list bs -> (j < length bs)%nat ->
+  sf_get m (nth j (arr_fold m sel bs) 0) = last_val sel j (sf_get m (nth j bs 0)).
+Proof.
+  intros Hin. induction sel as [|p sel IH]; intros bs j Hv Hb Hj; [reflexivity|].
+  cbn [fold_left]. rewrite last_val_cons.
+  set (bs1 := set_nth bs (fst p) (sf_put m (nth (fst p) bs 0) (snd p))).
+  assert (0 <= snd p <= sf_max m) as Hp by (apply Hv; now left).
+  assert (byte_list bs1) as Hb1.
+  { assert (forall q, In q [p] -> 0 <= snd q <= sf_max m) as H1 by (intros q [<-|[]]; exact Hp).
+    pose proof (fold_outside_mask fmt name c m [p] Hin bs 0%nat H1 Hb) as (A & _). exact A. }
+  rewrite IH; [|intros q Hq; apply Hv; now right|exact Hb1|unfold bs1; now rewrite set_nth_length].
+  f_equal.
+  destruct (Nat.eqb (fst p) j) eqn:E.
+  - apply Nat.eqb_eq in E. subst j. unfold bs1. rewrite nth_set_nth_same by exact Hj.
+    assert (0 <= nth (fst p) bs 0 < 256) as Hn by (rewrite Forall_forall in Hb; apply Hb, nth_In; exact Hj).
+    now destruct (sf_set_get fmt name c m _ _ Hin Hn Hp) as (_ & Hg & _).
+  - apply Nat.eqb_neq in E. unfold bs1. now rewrite nth_set_nth_other.
+Qed.
+
+(* ISOLATED: whatever is assigned to a field, every route of every sibling sharing the byte reads what it read before *)
+Lemma routes_isolated fmt name c m sel : In (fmt, name, c, m) all_sub_fields ->
+  forall bs, (forall p, In p sel -> 0 <= snd p <= sf_max m) -> byte_list bs ->
+  forall m' ro, In m' (siblings fmt c m) -> sf_route m' (arr_fold m sel bs) ro = sf_route m' bs ro.
+Proof.
+  intros Hin bs Hv Hb m' ro Hm'. unfold sf_route. f_equal.
+  apply nth_ext_Z; [now rewrite !map_length, fold_length|].
+  intros j Hj. rewrite map_length, fold_length in Hj.
+  rewrite !nth_map_Z by (try rewrite fold_length; exact Hj).
+  destruct (fold_outside_mask fmt name c m sel Hin bs j Hv Hb) as (_ & _ & S). now apply S.
+Qed.
+
+(* EXACT: every route of the assigned field reads the assigned values (and nothing of the prior bytes but the old
+   values of the points the expression does not address) *)
+Lemma routes_read_back fmt name c m sel : In (fmt, name, c, m) all_sub_fields ->
+  forall bs, (forall p, In p sel -> 0 <= snd p <= sf_max m) -> byte_list bs ->
+  forall ro, sf_route m (arr_fold m sel bs) ro
+             = route_vals ro (map (fun j => last_val sel j (sf_get m (nth j bs 0))) (seq 0 (length bs))).
+Proof.
+  intros Hin bs Hv Hb ro. unfold sf_route. f_equal.
+  apply nth_ext_Z; [now rewrite !map_length, fold_length, seq_length|].
+  intros j Hj. rewrite map_length, fold_length in Hj.
+  rewrite nth_map_Z by (rewrite fold_length; exact Hj). rewrite nth_map_seq by exact Hj.
+  now apply (fold_get_last fmt name c).
+Qed.
+
+(* the same through the record: rec[name][s1]..[sk][key] = value *)
+Lemma view_assign_eq fmt name c m : In (fmt, name, c, m) all_sub_fields ->
+  forall bs vpos sel, (forall p, In p sel -> 0 <= snd p <= sf_max m /\ (fst p < length vpos)%nat) ->
+  sf_assign_view m bs vpos sel = Ok (arr_fold m (through vpos sel) bs).
+Proof.
+  intros Hin bs vpos sel Hsel.
+  assert (forall q, In q (through vpos sel) -> 0 <= snd q <= sf_max m) as Hv'.
+  { intros q Hq. unfold through in Hq. apply in_map_iff in Hq as (p & <- & Hp). cbn. now apply Hsel. }
+  unfold sf_assign_view.
+  destruct (existsb _ sel) eqn:E.
+  { apply existsb_exists in E as (q & Hq & Ho). destruct (Hsel _ Hq) as [R _]. unfold oob in Ho. lia. }
+  assert (forallb (fun p => Nat.ltb (fst p) (length vpos)) sel = true) as ->.
+  { apply forallb_forall. intros p Hp. apply Nat.ltb_lt. now apply Hsel. }
+  cbn. unfold sf_assign_arr. fold (through vpos sel).
+  destruct (existsb _ (through vpos sel)) eqn:E'; [|reflexivity].
+  apply existsb_exists in E' as (q & Hq & Ho). specialize (Hv' _ Hq). lia.
+Qed.
+
+Lemma routes_view fmt r n name c m chain sel :
+  rec_wf fmt r n -> find_sf fmt name = Some (c, m) -> chain_ok n chain ->
+  let vpos := view_chain n chain in
+  (forall p, In p sel -> 0 <= snd p <= sf_max m /\ (fst p < length vpos)%nat) ->
+  exists r', rec_assign_view fmt r name chain sel = Ok r'
+  /\ (forall name' c' m' ro, name' <> name -> find_sf fmt name' = Some (c', m') ->
+        rec_route fmt r' name' ro = rec_route fmt r name' ro)
+  /\ (forall ro, rec_route fmt r' name ro
+        = route_vals ro (map (fun j => last_val (through vpos sel) j (sf_get m (nth j (col_get r c) 0))) (seq 0 n))).
+Proof.
+  intros W F Hch vpos Hsel.
+  destruct (assign_view_spec fmt r n name c m chain sel W F Hch Hsel) as (r' & E & _ & Oth & _).
+  exists r'. split; [exact E|]. split.
+  { intros name' c' m' ro Hne F'. unfold rec_route. now rewrite (Oth name' c' m' Hne F'). }
+  pose proof W as [K H].
+  assert (In c (map fst r)) as Hc by (rewrite K; eapply find_sf_col; eauto).
+  destruct (col_get_ok r c n H Hc) as [Hl Hb].
+  pose proof (find_sf_in _ _ _ _ F) as Hin.
+  assert (forall q, In q (through vpos sel) -> 0 <= snd q <= sf_max m) as Hv'.
+  { intros q Hq. unfold through in Hq. apply in_map_iff in Hq as (p & <- & Hp). cbn. now apply Hsel. }
+  unfold rec_assign_view in E. rewrite F in E. cbv zeta in E. rewrite Hl in E. fold vpos in E.
+  rewrite (view_assign_eq fmt name c m Hin (col_get r c) vpos sel Hsel) in E. injection E as <-.
+  intros ro. unfold rec_route, rec_read. rewrite F. rewrite col_get_set_same by exact Hc.
+  pose proof (routes_read_back fmt name c m (through vpos sel) Hin (col_get r c) Hv' Hb ro) as R.
+  unfold sf_route in R. rewrite Hl in R. exact R.
+Qed.
+
+(* rec[name] = vs (growth, broadcast): every route of the field reads the assigned values, every route of another
+   sub-field reads its old values followed by zeros for the appended points *)
+Lemma routes_seq fmt r n name c m vs r' :
+  rec_wf fmt r n -> find_sf fmt name = Some (c, m) -> vs <> [] -> rec_assign_seq fmt r name vs = Ok r' ->
+  let k := Nat.max n (length vs) in
+  (forall ro, rec_route fmt r' name ro = route_vals ro (seq_values vs k))
+  /\ (forall name' c' m' ro, name' <> name -> find_sf fmt name' = Some (c', m') ->
+        rec_route fmt r' name' ro = route_vals ro (grow (map (sf_get m') (col_get r c')) k)).
+Proof.
+  intros W F Hne E k.
+  destruct (assign_seq_spec fmt r n name c m vs r' W F Hne E) as (_ & _ & Rd & Oth & _).
+  split.
+  - intros ro. unfold rec_route. fold k in Rd. now rewrite Rd.
+  - intros name' c' m' ro Hd F'. unfold rec_route. fold k in Oth. now rewrite (Oth name' c' m' Hd F').
+Qed.
+
+(* the conversions numpy applies to the unpacked values are exact on every sub-field: any integer type of at least
+   16 bits and any unsigned type holds the value itself; bool is "the value is not zero" - the flag itself for a
+   one-bit field *)
+Lemma routes_dtype_exact fmt name c m b : In (fmt, name, c, m) all_sub_fields -> 0 <= b < 256 ->
+  (forall bits signed, 16 <= bits \/ (8 <= bits /\ signed = false) -> wrap_int bits signed (sf_get m b) = sf_get m b)
+  /\ (as_bool (sf_get m b) = 0 <-> sf_get m b = 0)
+  /\ (sf_max m = 1 -> as_bool (sf_get m b) = sf_get m b).
+Proof.
+  intros Hin Hb. pose proof (sf_get_byte _ _ _ _ _ Hin Hb) as Hv. pose proof (sf_get_le _ _ _ _ _ Hin Hb) as Hm.
+  set (v := sf_get m b) in *. split; [|split].
+  - intros bits signed Hbits. unfold wrap_int.
+    assert (2 ^ 8 <= 2 ^ bits) as P8 by (apply Z.pow_le_mono_r; lia). change (2 ^ 8) with 256 in P8.
+    rewrite Z.mod_small by lia.
+    destruct signed; cbn [andb]; [|reflexivity].
+    destruct Hbits as [H16|[_ Hf]]; [|discriminate].
+    assert (2 ^ 15 <= 2 ^ (bits - 1)) as P15 by (apply Z.pow_le_mono_r; lia). change (2 ^ 15) with 32768 in P15.
+    destruct (2 ^ (bits - 1) <=? v) eqn:L; [lia|reflexivity].
+  - unfold as_bool. destruct (v =? 0) eqn:Z0; split; intros; try lia.
+  - intros M1. unfold as_bool. destruct (v =? 0) eqn:Z0; lia.
+Qed.
+
+(* the extremes a route reports are values of the field, and bound all of them *)
+Lemma fold_max_spec t : forall v, let x := fold_left Z.max t v in (x = v \/ In x t) /\ v <= x /\ Forall (fun y => y <= x) t.
+Proof.
+  induction t as [|a t IH]; intros v; cbn [fold_left].
+  - split; [now left|]. split; [lia|constructor].
+  - destruct (IH (Z.max v a)) as (A & B & C). set (x := fold_left Z.max t (Z.max v a)) in *. cbv zeta.
+    split. { destruct A as [A|A]; [|right; now right]. destruct (Z.max_spec v a) as [[_ M]|[_ M]]; rewrite M in A; [right; now left|now left]. }
+    split; [lia|]. constructor; [lia|exact C].
+Qed.
+
+Lemma fold_min_spec t : forall v, let x := fold_left Z.min t v in (x = v \/ In x t) /\ x <= v /\ Forall (fun y => x <= y) t.
+Proof.
+  induction t as [|a t IH]; intros v; cbn [fold_left].
+  - split; [now left|]. split; [lia|constructor].
+  - destruct (IH (Z.min v a)) as (A & B & C). set (x := fold_left Z.min t (Z.min v a)) in *. cbv zeta.
+    split. { destruct A as [A|A]; [|right; now right]. destruct (Z.min_spec v a) as [[_ M]|[_ M]]; rewrite M in A; [now left|right; now left]. }
+    split; [lia|]. constructor; [lia|exact C].
+Qed.
+
+Lemma routes_extremes vs :
+  (forall x, route_vals RMax vs = Some [x] -> In x vs /\ Forall (fun y => y <= x) vs)
+  /\ (forall x, route_vals RMin vs = Some [x] -> In x vs /\ Forall (fun y => x <= y) vs)
+  /\ (vs <> [] -> exists x y, route_vals RMax vs = Some [x] /\ route_vals RMin vs = Some [y]).
+Proof.
+  destruct vs as [|v t].
+  - split; [intros x H; discriminate|]. split; [intros x H; discriminate|]. intros H. now destruct H.
+  - cbn [route_vals list_max list_min option_map]. split; [|split].
+    + intros x H. injection H as <-. destruct (fold_max_spec t v) as (A & B & C).
+      split; [destruct A as [->|A]; [now left|now right]|]. constructor; assumption.
+    + intros x H. injection H as <-. destruct (fold_min_spec t v) as (A & B & C).
+      split; [destruct A as [->|A]; [now left|now right]|]. constructor; assumption.
+    + intros _. eexists. eexists. split; reflexivity.
+Qed.
+
+(* membership in the table of sub-fields, decided by computation (for the non-vacuity example) *)
+Lemma entry_eqb_eq e1 e2 : entry_eqb e1 e2 = true -> e1 = e2.
+Proof.
+  destruct e1 as [[[f1 n1] c1] m1], e2 as [[[f2 n2] c2] m2]. cbn [entry_eqb]. intros H.
+  apply andb_true_iff in H as [H Hm]. apply andb_true_iff in H as [H Hc]. apply andb_true_iff in H as [Hf Hn].
+  apply Z.eqb_eq in Hf, Hm. apply String.eqb_eq in Hn, Hc. now subst.
+Qed.
+
+Lemma entry_mem x : existsb (entry_eqb x) all_sub_fields = true -> In x all_sub_fields.
+Proof. intros H. apply existsb_exists in H as (y & Hy & E). apply entry_eqb_eq in E. now subst. Qed.
